@@ -468,3 +468,32 @@ def _(cx):
         cx.prove("empty_tree_tree_query:no_overlap", bool(flag is False or flag == 0))
         cx.prove("empty_tree_tree_query:no_pairs", bool(len(pairs) == 0 and len(i1) == 0 and len(i2) == 0))
     cx.cover("end")
+
+
+@contract("aabb_tree.insert_leaf[first]", fn=M + ".insert_leaf", props=["C05"], tags=["no-native"])
+def _(cx):
+    """inserting into the empty tree (root = -1, every slot unused, slots initialised with -1 as AabbTree.insert_aabbs does):
+    the leaf becomes the root and the result is a well-formed one-leaf tree"""
+    f = cx.target()
+    F = SI(z3.Int("t_F"))
+    cap = SI(z3.Int("t_cap"))
+    cx.facts.append(("dom:F", z3.And(F.t >= 1, cap.t >= F.t)))
+    nodes = ZTable.fresh("t_nodes", 4, cap)
+    boxes = ZBoxes.fresh("t_boxes", cap)
+    rank = z3.Const("t_rank", z3.ArraySort(I, z3.RealSort()))
+    leaf = SI(z3.Int("leaf"))
+    i = z3.Int("ei")
+    cx.facts.append(("pre:all_slots_unused", z3.ForAll([i], z3.Implies(z3.And(i >= 0, i < cap.t), z3.And(
+        *[z3.Select(nodes.cols[k], i) == NONE for k in range(4)])))))
+    cx.facts.append(("pre:leaf", z3.And(leaf.t >= 0, leaf.t < F.t)))
+    pre_boxes = boxes.snapshot()
+    cx.facts.append(("pre:leaf_box_ordered", z3.And(*[boxes.sel(a, 0, leaf.t) <= boxes.sel(a, 1, leaf.t) for a in range(3)])))
+    r_root, r_nodes, r_boxes, r_F = cx.call(f, -1, leaf, nodes, boxes, F)
+    post = Tree(r_nodes, r_boxes, r_root, r_F, rank)
+    cx.prove("post:root_is_leaf", B(zint(r_root) == leaf.t))
+    cx.prove("post:F_unchanged", B(zint(r_F) == F.t))
+    for n, c in post.wf():
+        cx.prove("post_wf:" + n, B(c))
+    cx.prove("post:only_leaf_live", B(z3.ForAll([i], z3.Implies(z3.And(i >= 0, i < F.t, i != leaf.t), z3.Not(post.live(i))))))
+    cx.canary("end_reachable(hypotheses_consistent)", False, strict=True)
+    cx.cover("end")
